@@ -1,25 +1,280 @@
 /-
 C18 — interleavings of N processes (with crashes): the invariant behind `schedule_safe`,
 the step bound and deadlock freedom.  See `Proofs/DbCacheSpec.lean` for the vocabulary.
+
+Helper files: `DbCacheInvMeasure` (step bound), `DbCacheInvBase` (per-process invariant `PInv`, lock regions
+`inLock`, the "has only seen the initial file" predicate `PreW`, specs of the local programs),
+`DbCacheInvStep` (`StepIn ⟹ StepOut` for every action and for a kill).
+
+The invariant `Inv`:
+  * every process satisfies `PInv` (answers/memory correct, `keys answers ++ todo = asked`, and a fact per
+    program counter: snapshot buffers harmless / mergeable, pending exception classes caught, …);
+  * a process is inside a lock region iff it is the lock holder (mutual exclusion);
+  * a non-atomic writer about to dump sees the file missing or empty (nobody else writes in between);
+  * the file is missing or mergeable (`FileGood`), OR it still is the initial file and — if the writer merges —
+    every process has so far only seen the initial file (`PreW`), so nobody merges it before it was validated.
 -/
 import SpsdkVerif.Proofs.DbCacheSpec
+import SpsdkVerif.Proofs.DbCacheInvMeasure
+import SpsdkVerif.Proofs.DbCacheInvStep
 
 namespace SpsdkVerif.DbCache
-open SpsdkVerif
+open SpsdkVerif Sched
 
 /-- every action strictly decreases the bound of the acting process -/
 theorem pstep_measure (env : Env) (G : Guards) (i : Nat) (sh sh' : Sh) (p p' : Proc)
-    (h : pstep env G i sh p = some (sh', p')) : p'.measure < p.measure := by
-  sorry
+    (h : pstep env G i sh p = some (sh', p')) : p'.measure < p.measure :=
+  pstep_measure_aux env G i sh sh' p p' h
 
 theorem gstep_measure (env : Env) (G : Guards) (s s' : St) (l : Lbl)
-    (h : gstep env G s l = some s') : s'.totalMeasure < s.totalMeasure := by
-  sorry
+    (h : gstep env G s l = some s') : s'.totalMeasure < s.totalMeasure :=
+  gstep_measure_aux env G s s' l h
 
 /-- a schedule is never longer than the initial bound -/
 theorem sched_length_le (env : Env) (G : Guards) (s s' : St) (sched : List Lbl)
-    (h : runSched env G s sched = some s') : sched.length + s'.totalMeasure ≤ s.totalMeasure := by
-  sorry
+    (h : runSched env G s sched = some s') : sched.length + s'.totalMeasure ≤ s.totalMeasure :=
+  sched_length_le_aux env G s s' sched h
+
+end SpsdkVerif.DbCache
+
+/-! ### the global invariant (helper names live in `SpsdkVerif.DbCache.Sched`) -/
+namespace SpsdkVerif.DbCache.Sched
+open SpsdkVerif
+
+/-- the invariant of all reachable states -/
+structure Inv (env : Env) (G : Guards) (f0 : Option Bytes) (queries : List (List Nat)) (s : St) : Prop where
+  procs : ∀ (j : Nat) (q : Proc), s.procs[j]? = some q → PInv env G q
+  lock : ∀ (j : Nat) (q : Proc), s.procs[j]? = some q → (inLock G q.pc = true ↔ s.sh.lock = some j)
+  lockLt : ∀ j, s.sh.lock = some j → j < s.procs.length
+  wr : ∀ (j : Nat) (q : Proc), s.procs[j]? = some q → q.pc = .wWrite → G.w.atomicWrite = false →
+    s.sh.file = none ∨ s.sh.file = some []
+  file : FileGood env G s.sh.file ∨
+    (s.sh.file = f0 ∧ (G.w.mergesExisting = true → ∀ (j : Nat) (q : Proc), s.procs[j]? = some q → PreW env f0 q))
+  asked : s.procs.map (·.asked) = queries
+
+theorem get_set {α} {l : List α} {i j : Nat} {a q : α} (h : (l.set i a)[j]? = some q) :
+    (j = i ∧ q = a) ∨ (j ≠ i ∧ l[j]? = some q) := by
+  rw [List.getElem?_set] at h
+  split at h
+  · rename_i hij
+    split at h
+    · simp only [Option.some.injEq] at h; exact Or.inl ⟨hij.symm, h.symm⟩
+    · cases h
+  · rename_i hij; exact Or.inr ⟨fun h' => hij h'.symm, h⟩
+
+theorem map_set_same {α β} (f : α → β) {l : List α} {i : Nat} {a b : α} (h : l[i]? = some a) (hf : f b = f a) :
+    (l.set i b).map f = l.map f := by
+  induction l generalizing i with
+  | nil => simp
+  | cons x xs ih =>
+    cases i with
+    | zero => simp at h; subst h; simp [hf]
+    | succ i => simp only [List.getElem?_cons_succ] at h; simp [ih h]
+
+variable {env : Env} {G : Guards} {f0 : Option Bytes} {queries : List (List Nat)}
+
+theorem Inv.harmless {s : St} (h0 : FileSafe env G f0) (hinv : Inv env G f0 queries s) :
+    FileSafe env G s.sh.file := by
+  intro b hb
+  rcases hinv.file with h | h
+  · exact BytesGood.harmless (h b hb)
+  · exact h0 b (by rw [← h.1, hb])
+
+theorem Inv.stepIn {s : St} (h0 : FileSafe env G f0) (hinv : Inv env G f0 queries s) {i : Nat} {p : Proc}
+    (hi : s.procs[i]? = some p) : StepIn env G f0 i s.sh p := by
+  refine ⟨hinv.procs i p hi, hinv.harmless h0, ?_, hinv.lock i p hi, hinv.wr i p hi⟩
+  intro hm
+  rcases hinv.file with h | h
+  · exact Or.inl h
+  · exact Or.inr ⟨h.1, h.2 hm i p hi⟩
+
+theorem Inv.lift {s : St} (hinv : Inv env G f0 queries s) {i : Nat} {p p' : Proc} {sh' : Sh}
+    (hi : s.procs[i]? = some p) (out : StepOut env G f0 i s.sh p sh' p') :
+    Inv env G f0 queries { sh := sh', procs := s.procs.set i p' } := by
+  have hilt : i < s.procs.length := by
+    rcases Nat.lt_or_ge i s.procs.length with h | h
+    · exact h
+    · rw [List.getElem?_eq_none h] at hi; cases hi
+  refine ⟨?_, ?_, ?_, ?_, ?_, ?_⟩
+  · intro j q hq
+    rcases get_set hq with ⟨-, rfl⟩ | ⟨-, hq⟩
+    · exact out.inv
+    · exact hinv.procs j q hq
+  · intro j q hq
+    rcases get_set hq with ⟨rfl, rfl⟩ | ⟨hj, hq⟩
+    · exact out.lockSelf
+    · exact (hinv.lock j q hq).trans (out.lockOther j hj).symm
+  · intro j hj
+    simp only [List.length_set]
+    by_cases hji : j = i
+    · subst hji; exact hilt
+    · exact hinv.lockLt j ((out.lockOther j hji).mp hj)
+  · intro j q hq hpc ha
+    rcases get_set hq with ⟨rfl, rfl⟩ | ⟨hj, hq⟩
+    · exact out.wrSelf hpc ha
+    · have hql : s.sh.lock = some j := (hinv.lock j q hq).mp (by rw [hpc]; rfl)
+      have hnl : inLock G p.pc = false := by
+        cases hl : inLock G p.pc with
+        | false => rfl
+        | true =>
+          have := (hinv.lock i p hi).mp hl
+          rw [hql] at this; cases this; exact absurd rfl hj
+      rcases out.fileOther hnl with h | h
+      · simp only; rw [h]; exact hinv.wr j q hq hpc ha
+      · exact Or.inl h
+  · rcases hinv.file with h | h
+    · left
+      rcases out.file with h' | h'
+      · exact h'
+      · simp only; rw [h'.1]; exact h
+    · rcases out.file with h' | h'
+      · exact Or.inl h'
+      · right
+        refine ⟨h'.1.trans h.1, fun hm j q hq => ?_⟩
+        rcases get_set hq with ⟨rfl, rfl⟩ | ⟨hj, hq⟩
+        · exact h'.2 hm h.1 (h.2 hm _ p hi)
+        · exact h.2 hm j q hq
+  · simp only
+    rw [map_set_same (·.asked) hi out.asked]; exact hinv.asked
+
+theorem initPC_cases (G : Guards) :
+    initPC G = .lExists ∨ (initPC G = .lAcquire ∧ G.l.lockRead = true) ∨ (initPC G = .lOpen ∧ G.l.lockRead = false) := by
+  unfold initPC
+  by_cases h1 : G.l.existsGuard = true <;> by_cases h2 : G.l.lockRead = true <;> simp [h1, h2]
+
+theorem Inv.init (queries : List (List Nat)) : Inv env G f0 queries (initSt G f0 queries) := by
+  have hproc : ∀ (j : Nat) (q : Proc), (initSt G f0 queries).procs[j]? = some q → ∃ qs, q = initProc G qs := by
+    intro j q hq
+    simp only [initSt, List.getElem?_map, Option.map_eq_some_iff] at hq
+    obtain ⟨qs, -, rfl⟩ := hq
+    exact ⟨qs, rfl⟩
+  refine ⟨?_, ?_, ?_, ?_, ?_, ?_⟩
+  · intro j q hq
+    obtain ⟨qs, rfl⟩ := hproc j q hq
+    refine ⟨⟨by simp [initProc], by simp [initProc], by simp [initProc, keys]⟩, ?_⟩
+    rcases initPC_cases G with h | h | h
+    · simp [initProc, PcInv, h]
+    · simp [initProc, PcInv, h.1, h.2]
+    · simp [initProc, PcInv, h.1]
+  · intro j q hq
+    obtain ⟨qs, rfl⟩ := hproc j q hq
+    rcases initPC_cases G with h | h | h
+    · simp [initProc, initSt, inLock, h]
+    · simp [initProc, initSt, inLock, h.1]
+    · simp [initProc, initSt, inLock, h.1, h.2]
+  · intro j hj; simp [initSt] at hj
+  · intro j q hq hpc
+    obtain ⟨qs, rfl⟩ := hproc j q hq
+    rcases initPC_cases G with h | h | h
+    · simp [initProc, h] at hpc
+    · simp [initProc, h.1] at hpc
+    · simp [initProc, h.1] at hpc
+  · right
+    refine ⟨rfl, fun _ j q hq => ?_⟩
+    obtain ⟨qs, rfl⟩ := hproc j q hq
+    rcases initPC_cases G with h | h | h
+    · simp [initProc, PreW, h]
+    · simp [initProc, PreW, h.1]
+    · simp [initProc, PreW, h.1]
+  · simp [initSt, initProc, Function.comp_def]
+
+theorem Inv.gstep (hw : WF G) (he : EnvOK env G) (h0 : FileSafe env G f0) {s s' : St} {l : Lbl}
+    (hinv : Inv env G f0 queries s) (h : gstep env G s l = some s') : Inv env G f0 queries s' := by
+  unfold DbCache.gstep at h
+  split at h
+  · split at h
+    · cases h
+    · rename_i p hp
+      split at h
+      · cases h
+      · rename_i sh' p' hs
+        simp only [Option.some.injEq] at h; subst h
+        exact hinv.lift hp (pstep_out hw he (hinv.stepIn h0 hp) hs)
+  · split at h
+    · cases h
+    · rename_i p hp
+      split at h
+      · cases h
+      · rename_i sh' p' hs
+        simp only [Option.some.injEq] at h; subst h
+        exact hinv.lift hp (crashStep_out he (hinv.stepIn h0 hp) hs)
+
+theorem Inv.run (hw : WF G) (he : EnvOK env G) (h0 : FileSafe env G f0) {s s' : St} {sched : List Lbl}
+    (hinv : Inv env G f0 queries s) (h : runSched env G s sched = some s') : Inv env G f0 queries s' := by
+  induction sched generalizing s with
+  | nil => simp only [runSched, Option.some.injEq] at h; subst h; exact hinv
+  | cons l ls ih =>
+    simp only [runSched] at h
+    split at h
+    · cases h
+    · rename_i s1 hs1
+      exact ih (hinv.gstep hw he h0 hs1) h
+
+theorem answers_eq {env : Env} (l : List (Nat × Nat)) (h : ∀ a ∈ l, EntOK env a) :
+    l = disabledAnswers env (keys l) := by
+  induction l with
+  | nil => rfl
+  | cons x xs ih =>
+    have hx : x.2 = env.loadCfg x.1 := h x (List.mem_cons_self ..)
+    have := ih (fun a ha => h a (List.mem_cons_of_mem _ ha))
+    simp only [disabledAnswers, keys, List.map_cons, List.map_map] at this ⊢
+    rw [← this, ← hx]
+
+theorem PInv.safe {p : Proc} (h : PInv env G p) : ProcSafe env p := by
+  refine ⟨?_, h.ans, ?_⟩
+  · intro e hpc
+    have := h.pc; simp [PcInv, hpc] at this
+  · intro hpc
+    have ht : p.todo = [] := by have := h.pc; simpa [PcInv, hpc] using this
+    have hk := h.keys
+    rw [ht, List.append_nil] at hk
+    rw [← hk]; exact answers_eq _ h.ans
+
+/-- an action is enabled unless the process is finished or waits for a lock somebody holds -/
+theorem pstep_enabled (env : Env) (G : Guards) (i : Nat) (sh : Sh) (p : Proc)
+    (hlive : p.pc.terminal = false) (hl : sh.lock = none ∨ inLock G p.pc = true) :
+    (pstep env G i sh p).isSome = true := by
+  cases hpc : p.pc with
+  | lAcquire =>
+    have : sh.lock = none := by simpa [hpc, inLock] using hl
+    simp [pstep, hpc, this]
+  | wAcquire =>
+    have : sh.lock = none := by simpa [hpc, inLock] using hl
+    simp [pstep, hpc, this]
+  | done => simp [hpc, PC.terminal] at hlive
+  | fatal e => simp [hpc, PC.terminal] at hlive
+  | crashed => simp [hpc, PC.terminal] at hlive
+  | lOpen => simp only [pstep, hpc]; split <;> rfl
+  | lUnpickle => simp only [pstep, hpc]; split <;> rfl
+  | lRemoveStale => simp only [pstep, hpc]; split <;> rfl
+  | hRemove => simp only [pstep, hpc]; split <;> rfl
+  | wOpenR => simp only [pstep, hpc]; split <;> rfl
+  | wUnpickle =>
+    simp only [pstep, hpc]; split
+    · rfl
+    · split <;> rfl
+  | _ => simp [pstep, hpc]
+
+theorem gstep_run_isSome (env : Env) (G : Guards) (s : St) (i : Nat) (p : Proc) (hi : s.procs[i]? = some p)
+    (h : (pstep env G i s.sh p).isSome = true) : (DbCache.gstep env G s (.run i)).isSome = true := by
+  simp only [DbCache.gstep, hi]
+  split
+  · rename_i hn; rw [hn] at h; cases h
+  · rfl
+
+
+/-- the invariant holds in every reachable state -/
+theorem sched_Inv (env : Env) (G : Guards) (measured : List Exc)
+    (hG : wfGuards G = true) (hP : PickleOK env measured) (hM : coversMeasured G measured = true)
+    (f0 : Option Bytes) (h0 : FileSafe env G f0) (queries : List (List Nat))
+    (sched : List Lbl) (s : St) (hrun : runSched env G (initSt G f0 queries) sched = some s) :
+    Inv env G f0 queries s :=
+  (Inv.init queries).run (WF.of G hG) (EnvOK.of hP hM) h0 hrun
+
+end SpsdkVerif.DbCache.Sched
+
+namespace SpsdkVerif.DbCache
+open SpsdkVerif Sched
 
 /-- the safety invariant, for every reachable state of every schedule (crashes included) -/
 theorem sched_inv (env : Env) (G : Guards) (measured : List Exc)
@@ -27,7 +282,11 @@ theorem sched_inv (env : Env) (G : Guards) (measured : List Exc)
     (f0 : Option Bytes) (h0 : FileSafe env G f0) (queries : List (List Nat))
     (sched : List Lbl) (s : St) (hrun : runSched env G (initSt G f0 queries) sched = some s) :
     (∀ p ∈ s.procs, ProcSafe env p) ∧ FileSafe env G s.sh.file ∧ s.procs.map (·.asked) = queries := by
-  sorry
+  have hinv := sched_Inv env G measured hG hP hM f0 h0 queries sched s hrun
+  refine ⟨?_, hinv.harmless h0, hinv.asked⟩
+  intro p hp
+  obtain ⟨j, hj⟩ := List.mem_iff_getElem?.mp hp
+  exact (hinv.procs j p hj).safe
 
 /-- no deadlock: while some process is unfinished, some process can act -/
 theorem sched_progress (env : Env) (G : Guards) (measured : List Exc)
@@ -36,6 +295,20 @@ theorem sched_progress (env : Env) (G : Guards) (measured : List Exc)
     (sched : List Lbl) (s : St) (hrun : runSched env G (initSt G f0 queries) sched = some s)
     (hlive : ∃ p ∈ s.procs, p.pc.terminal = false) :
     ∃ i, (gstep env G s (.run i)).isSome = true := by
-  sorry
+  have hinv := sched_Inv env G measured hG hP hM f0 h0 queries sched s hrun
+  obtain ⟨p, hp, hpl⟩ := hlive
+  cases hl : s.sh.lock with
+  | none =>
+    -- the lock is free: any unfinished process can act
+    obtain ⟨j, hj⟩ := List.mem_iff_getElem?.mp hp
+    exact ⟨j, gstep_run_isSome env G s j p hj (pstep_enabled env G j s.sh p hpl (Or.inl hl))⟩
+  | some j =>
+    -- the holder is inside its lock region, where every action is enabled
+    have hjlt := hinv.lockLt j hl
+    have hj : s.procs[j]? = some s.procs[j] := List.getElem?_eq_getElem hjlt
+    have hin : inLock G s.procs[j].pc = true := (hinv.lock j _ hj).mpr hl
+    have hlive : s.procs[j].pc.terminal = false := by
+      cases hpc : s.procs[j].pc <;> simp [hpc, inLock, PC.terminal] at hin ⊢
+    exact ⟨j, gstep_run_isSome env G s j _ hj (pstep_enabled env G j s.sh _ hlive (Or.inr hin))⟩
 
 end SpsdkVerif.DbCache
